@@ -236,15 +236,16 @@ CHECKS["C36"] = {
 }
 CHECKS["C38"] = {
     "level": "other",
-    "explanation": "Request-decoding kernels, executed symbolically with a bounded arbitrary JSON value (shape explored exhaustively; integer and string leaves symbolic) substituted for one field at a time of an otherwise valid request (type confusion on every field): v2/bulk ScriptV1 (UnmarshalJSON + ToCore), v1 Script.ToCore, the bulk element decoder (BulkElement.UnmarshalJSON, UnmarshalBulkElementPayload) followed by the real Bulker.processElement on the real controller over the store model, and the import-stream decoder (Log.UnmarshalJSON, LogType.UnmarshalJSON, HydrateLog, SavedMetadata/DeletedMetadata.UnmarshalJSON). Decided: no reachable panic; a bulk element that is refused leaves the committed state unchanged; a decoded log carries a payload.",
+    "explanation": "Request-decoding kernels, executed symbolically with a bounded arbitrary JSON value (shape explored exhaustively; integer and string leaves symbolic) substituted for one field at a time of an otherwise valid request (type confusion on every field): v2/bulk ScriptV1 (UnmarshalJSON + ToCore), v1 Script.ToCore, the bulk element decoder (BulkElement.UnmarshalJSON, UnmarshalBulkElementPayload) followed by the real Bulker.processElement on the real controller over the store model, and the import-stream decoder (Log.UnmarshalJSON, LogType.UnmarshalJSON, HydrateLog, SavedMetadata/DeletedMetadata.UnmarshalJSON), and pagination cursors: an arbitrary JSON document (whole, or one field at a time of a valid column / offset cursor) is base64-encoded, decoded by the real UnmarshalCursor and run through the real PaginatedResourceRepository.Paginate, paginator Paginate / BuildCursor on pages that may be empty. Decided: no reachable panic; a bulk element that is refused leaves the committed state unchanged; a decoded log carries a payload.",
     "bounds": {"quick": "substituted value: null / bool / unbounded integer / 4 non-integer numbers / string of <= 4 symbolic bytes / array of <= 2 such values / object over 2 keys (depth 1; depth 2 for script variables); one corrupted field per request; 6 bulk element kinds, 5 log kinds", "thorough": "depth 2 for bulk elements as well"},
-    "outside": "the HTTP layer: chi router, middlewares, query-string and header parsing, and the mapping of errors to status codes are not encoded (net/http is beyond the executor) — in particular 'the answer is 4xx rather than 5xx' is not decided, only 'an error, not a panic, and no effect'; cursors and filter bodies (covered under C37/C21 where built); two or more corrupted fields at once",
+    "outside": "the HTTP layer: chi router, middlewares, query-string and header parsing, and the mapping of errors to status codes are not encoded (net/http is beyond the executor) — in particular 'the answer is 4xx rather than 5xx' is not decided, only 'an error, not a panic, and no effect'; filter bodies; cursor modifiers of the API layer (page-size clamping); two or more corrupted fields at once",
     "assumptions": COMMON_ASSUME + DBMODEL_ASSUME + ["time.Parse, base64 decoding, strings.ToUpper and strconv.ParseUint of a symbolic string are over-approximated (error, or an arbitrary value)"],
     "units": [
         unit("./internal/machine/vm", ["vm/c36.go"], "^Harness_C38_", QT, libs=["jsongen"], flags={"labels": "^(C38:|no-panic)", "max-paths": 200000}, reach=["end"]),
         unit("./internal/api/v1", ["apiv1/c38.go"], "^Harness_C38_", QT, libs=["jsongen"], flags={"labels": "^(C38:|no-panic)", "max-paths": 200000}, reach=["end"]),
         unit("./internal", ["core/c38.go"], "^Harness_C38_log_", QT, libs=["jsongen"], flags={"labels": "^(C38:|no-panic)", "max-paths": 200000}, reach=["end"]),
         unit("./internal/api/bulking", ["bulk/c32.go", "bulk/c38.go"], "^Harness_C38_bulk_(create|revert)", QT, libs=["jsongen"], extra=BULK_EXTRA, flags={"labels": "^(C38:|no-panic)", "max-paths": 400000, "max-decisions": 6000}, reach=["end"]),
+        unit("./internal/storage/common", ["common/c21.go", "common/c38.go"], "^Harness_C38_cursor_", QT, libs=["jsongen"], swaps=[{"file": "internal/storage/common/paginator_column.go", "methods": [("", "findPaginationFieldPath"), ("", "findPaginationField")]}], flags={"labels": "^(C38:|no-panic)", "max-paths": 200000}, reach=["end"]),
         unit("./internal/api/bulking", ["bulk/c32.go", "bulk/c38.go"], "^Harness_C38_bulk_(add|delete)", QT, libs=["jsongen"], extra=BULK_EXTRA, flags={"labels": "^(C38:|no-panic)", "max-paths": 400000, "max-decisions": 6000}, reach=["end"]),
     ],
 }
